@@ -259,6 +259,8 @@ enum Unit {
     Binary(B),
     Dag { n: usize, prefix: Vec<POp> },
     Fan { w: usize },
+    /// 300 simultaneously live gradients
+    Huge,
     Transform,
 }
 
@@ -297,6 +299,7 @@ fn units(tier: Tier) -> Vec<Unit> {
     for w in 1..=(if tier == Tier::Quick { 16 } else { 24 }) {
         v.push(Unit::Fan { w });
     }
+    v.push(Unit::Huge);
     v
 }
 
@@ -744,7 +747,7 @@ impl Check for C05 {
     }
     fn meta(&self, tier: Tier) -> Meta {
         Meta {
-            rule: "case = one grad-slice call; (a) every opcode x operand form {reg, reg/reg, same-reg, reg/imm, imm/reg} x operand values from a 20-value finite alphabet (squared for binary ops) x seed gradients {e_x,e_y,e_z,(2,-3,0.5),0,(1,1,1)} per operand, cut into slices of lengths 1..=9, VM and JIT; (b) fan families of width 1..16 (thorough 24) keeping w gradients live across atan2 / mod / sin / exp call-outs; every DAG up to the node bound over 20 differentiable ops with all nodes exported: local chain-rule obligation at every node (reference dual applied to the evaluator's own operand gradients) on a 36-point grid; (c) Context::deriv of the last node w.r.t. X and Y evaluated with ref32 vs the f64 dual-number derivative of the graph; (d) Shape grad evaluation with 7 matrices incl. projective; oracle: f64 forward-mode duals with a cancellation-aware tolerance 1e-4*max(1,|ref|,sum|terms|); value must equal the float-slice evaluator's; points within 1e-3 of an op's non-differentiable locus are skipped (counted); non-trivial = a derivative was actually compared".into(),
+            rule: "case = one grad-slice call; (a) every opcode x operand form {reg, reg/reg, same-reg, reg/imm, imm/reg} x operand values from a 20-value finite alphabet (squared for binary ops) x seed gradients {e_x,e_y,e_z,(2,-3,0.5),0,(1,1,1)} per operand, cut into slices of lengths 1..=9, VM and JIT; (b) fan families of width 1..16 (thorough 24) keeping w gradients live across atan2 / mod / sin / exp call-outs, and one huge program with 300 simultaneously live gradients; every DAG up to the node bound over 20 differentiable ops with all nodes exported: local chain-rule obligation at every node (reference dual applied to the evaluator's own operand gradients) on a 36-point grid; (c) Context::deriv of the last node w.r.t. X and Y evaluated with ref32 vs the f64 dual-number derivative of the graph; (d) Shape grad evaluation with 7 matrices incl. projective; oracle: f64 forward-mode duals with a cancellation-aware tolerance 1e-4*max(1,|ref|,sum|terms|); value must equal the float-slice evaluator's; points within 1e-3 of an op's non-differentiable locus are skipped (counted); non-trivial = a derivative was actually compared".into(),
             bounds: match tier {
                 Tier::Quick => "DAG nodes <= 2".into(),
                 Tier::Thorough => "DAG nodes <= 3".into(),
@@ -802,6 +805,15 @@ impl Check for C05 {
                 for p in &progs {
                     op_level::<VmFunction>(cx, &mut sub, p, &format!("{op:?}"), 2);
                     op_level::<JitFunction>(cx, &mut sub, p, &format!("{op:?}"), 2);
+                }
+            }
+            Unit::Huge => {
+                if cx.case(sub) {
+                    cx.add("cases", 1);
+                    let p = crate::prog::huge_prog(300, false);
+                    let pts: Vec<Vec<f32>> = vec![vec![-2.25], vec![0.3], vec![1.6]];
+                    dag_prog::<VmFunction>(cx, &p, &pts);
+                    dag_prog::<JitFunction>(cx, &p, &pts);
                 }
             }
             Unit::Fan { w } => {
